@@ -1239,10 +1239,14 @@ class Constructs(mixin.Container, core.Constructs):
                 # constructs.
                 keys = (None,)
 
-            filter_kwargs = {
-                "filter_by_key": keys,
-                "todict": filter_kwargs.get("todict", False),
-            }
+            # Apply any other filters as well as the restriction to
+            # the keys found. The keys are filtered last so that they
+            # combine with, rather than replace, a 'filter_by_key'
+            # filter provided by the caller.
+            filter_kwargs.pop("filter_by_identity")
+            todict = filter_kwargs.pop("todict", False)
+            out = self.filter(filter_by_type=("domain_axis",), **filter_kwargs)
+            return out.filter_by_key(*keys, todict=todict)
 
         return self.filter(filter_by_type=("domain_axis",), **filter_kwargs)
 
